@@ -755,6 +755,15 @@ class Table(Vector):
 		if not target_indices:
 			return # No columns selected, nothing to do
 
+		# Refuse up front when an addressed column shares its storage with another live vector,
+		# so that an AliasError leaves every column untouched (not just the ones after it)
+		from .alias_tracker import _ALIAS_TRACKER
+		for col_idx in target_indices:
+			if -n_cols <= col_idx < n_cols:
+				col = self._underlying[col_idx]
+				if col._underlying:
+					_ALIAS_TRACKER.check_writable(col, id(col._underlying))
+
 		# --- 3. Handle Assignment ---
 		
 		# CASE A: Scalar Assignment (Broadcast)
